@@ -46,6 +46,7 @@ DoTx(tx, fault) ==
   LET r == RunTx(W, tx, fault)
       e == Event(tx, fault, r, W, r.W)
   IN /\ r.err # "over"
+     /\ SafeWorld(r.W)                        \* stay inside what 32-bit integers can multiply
      /\ (fault # 0 => r.ctx.fired)            \* only faults that actually hit a sub-call
      /\ W' = r.W
      /\ last' = e
